@@ -100,6 +100,12 @@ def run_live(desc):
             sel, hc = rng.choice(((701, 0), (702, 0), (703, 0), (704, -1.5)))
             otype = rng.choice(("LIMIT",) * 6 + ("LOC", "MOC"))
             o = livecases.make_order(st, mid, sel=sel, handicap=hc, side=rng.choice(("BACK", "LAY")), price=rng.choice((2.0, 3.2, 5.5, 12.0)), size=rng.choice((2.0, 37.5, 100.0, 240.0, 300.0)), otype=otype, liability=rng.choice((5.0, 40.0)))
+            if otype == "LIMIT" and rng.random() < 0.25:
+                # an order that names a stake and a bet target (the stake is what the framework accounts with)
+                from flumine.order.ordertype import LimitOrder
+                from flumine.order.trade import Trade
+
+                o = Trade(mid, sel, hc, st).create_order(o.side, LimitOrder(o.order_type.price, o.order_type.size, persistence_type="PERSIST", bet_target_type=rng.choice(("PAYOUT", "BACKERS_PROFIT")), bet_target_size=rng.choice((30.0, 75.0))))
             m.place_order(o)
             w.executor.run_all()
             b = next((b_ for b_ in ex.bets.values() if b_["customerOrderRef"] == o.customer_order_ref), None)
@@ -124,30 +130,60 @@ def run_live(desc):
                 nb = [x for x in ex.bets.values() if x["customerOrderRef"] == o.customer_order_ref and x["betId"] != b["betId"]]
                 if nb and nb[-1]["sizeRemaining"] > 0:
                     ex.fill(nb[-1]["betId"], round(nb[-1]["sizeRemaining"] * rng.choice((0.3, 1.0)), 2))
-        w.snapshot()
-        mb = m.market_book
-        by_sel = {}
-        for b in ex.bets.values():
+        for phase in ("after-responses", "after-overtaken-response", "after-snapshot"):
+          if phase == "after-snapshot":
+            w.snapshot()
+          elif phase == "after-overtaken-response":
+            if desc["idx"] % 3 != 1:
+                continue
+            # the order stream reports a new bet (already partly or fully matched) before the placement's own response arrives; once
+            # that response is in, nothing is outstanding and the latest snapshot has been processed
+            o_ = livecases.make_order(st, mid, sel=702, side=rng.choice(("BACK", "LAY")), price=3.0, size=10.0)
+            m.place_order(o_)
+            if w.executor.queue:
+                w.exchange_process(0)
+                nb_ = [x for x in ex.bets.values() if x["customerOrderRef"] == o_.customer_order_ref]
+                if nb_:
+                    ex.fill(nb_[-1]["betId"], rng.choice((10.0, 4.0)))
+                w.snapshot()
+                w.executor.run_all()
+          elif desc["idx"] % 3 != 0:
+            continue
+          else:
+            # nothing has happened at the exchange since the framework received the responses to its own requests: its figures
+            # already describe what the exchange holds (an extra order placed now, no fills in between)
+            o_ = livecases.make_order(st, mid, sel=701, side=rng.choice(("BACK", "LAY")), price=3.0, size=4.0)
+            if rng.random() < 0.5:
+                from flumine.order.ordertype import LimitOrder
+                from flumine.order.trade import Trade
+
+                o_ = Trade(mid, 701, 0, st).create_order(o_.side, LimitOrder(3.0, 4.0, persistence_type="PERSIST", bet_target_type=rng.choice(("PAYOUT", "BACKERS_PROFIT")), bet_target_size=rng.choice((30.0, 75.0))))
+            w.snapshot()
+            m.place_order(o_)
+            w.executor.run_all()
+          mb = m.market_book
+          by_sel = {}
+          for b in ex.bets.values():
             by_sel.setdefault((b["selectionId"], b["handicap"]), []).append(c11.bet_view(b))
-        per = {}
-        for sel, views in by_sel.items():
-            w_, l_ = O.selection_wpp(views)
-            per[sel] = (w_, l_)
-            got = m.blotter.get_exposures(st, (mid, sel[0], sel[1]))
-            out.rule("selection-exposure")
-            frac = any(v["matched"] and abs(v["avg"] * 100 - round(v["avg"] * 100)) > 1e-6 for v in views)
-            out.d("c16live:%d:%s:%s" % (min(len(views), 4), "".join(sorted({v["otype"][0] + v["side"][0] for v in views})), frac))
-            if abs(got["worst_possible_profit_on_win"] - w_) > 0.011 or abs(got["worst_possible_profit_on_lose"] - l_) > 0.011:
-                out.v("selection-exposure-differs", {"types": "".join(sorted({v["otype"][0] for v in views})), "live": True, "fractional_average": frac}, views=views, got=got, expected=(w_, l_))
-            se = m.blotter.selection_exposure(st, (mid, sel[0], sel[1]))
-            if abs(se - max(0.0, -min(w_, l_))) > 0.011:
-                out.v("selection-exposure-figure-differs", {"live": True}, views=views, got=se, expected=max(0.0, -min(w_, l_)))
-        if per and mb is not None and mb.number_of_winners is not None:
-            out.rule("market-exposure")
-            expm = O.market_worst_case(per, mb.number_of_winners, mb.number_of_active_runners)
-            gotm = m.blotter.market_exposure(st, mb)
-            if abs(gotm - expm) > 0.011 * max(1, len(per)):
-                out.v("market-exposure-differs", {"winners": mb.number_of_winners, "live": True}, got=gotm, expected=expm, per={str(k): v for k, v in per.items()})
+          per = {}
+          for sel, views in by_sel.items():
+              w_, l_ = O.selection_wpp(views)
+              per[sel] = (w_, l_)
+              got = m.blotter.get_exposures(st, (mid, sel[0], sel[1]))
+              out.rule("selection-exposure")
+              frac = any(v["matched"] and abs(v["avg"] * 100 - round(v["avg"] * 100)) > 1e-6 for v in views)
+              out.d("c16live:%d:%s:%s" % (min(len(views), 4), "".join(sorted({v["otype"][0] + v["side"][0] for v in views})), frac))
+              if abs(got["worst_possible_profit_on_win"] - w_) > 0.011 or abs(got["worst_possible_profit_on_lose"] - l_) > 0.011:
+                  out.v("selection-exposure-differs", {"types": "".join(sorted({v["otype"][0] for v in views})), "live": True, "when": phase, "fractional_average": frac}, views=views, got=got, expected=(w_, l_))
+              se = m.blotter.selection_exposure(st, (mid, sel[0], sel[1]))
+              if abs(se - max(0.0, -min(w_, l_))) > 0.011:
+                  out.v("selection-exposure-figure-differs", {"live": True, "when": phase}, views=views, got=se, expected=max(0.0, -min(w_, l_)))
+          if per and mb is not None and mb.number_of_winners is not None:
+              out.rule("market-exposure")
+              expm = O.market_worst_case(per, mb.number_of_winners, mb.number_of_active_runners)
+              gotm = m.blotter.market_exposure(st, mb)
+              if abs(gotm - expm) > 0.011 * max(1, len(per)):
+                  out.v("market-exposure-differs", {"winners": mb.number_of_winners, "live": True, "when": phase}, got=gotm, expected=expm, per={str(k): v for k, v in per.items()})
         out.c("live_positions")
     finally:
         livecases.finish(w)
